@@ -211,13 +211,22 @@ impl Dumper<'_> {
     fn statement(&mut self, s: &Statement) {
         match s {
             Statement::Expression(e) => self.expr(e),
+            Statement::DefineVariable(v)
+                if v.type_annotation.is_none() && v.decorators.is_empty() =>
+            {
+                self.out
+                    .push_str(&format!("(let {} ", escape(v.identifier)));
+                self.expr(&v.expr);
+                self.out.push(')');
+            }
             Statement::DefineVariable(_) => self.out.push_str("(stmt let)"),
             Statement::DefineFunction { .. } => self.out.push_str("(stmt fn)"),
             Statement::DefineDimension(..) => self.out.push_str("(stmt dimension)"),
             Statement::DefineBaseUnit(..) => self.out.push_str("(stmt unit)"),
             Statement::DefineDerivedUnit { .. } => self.out.push_str("(stmt unit)"),
-            Statement::ProcedureCall(_, _, args) => {
-                self.out.push_str("(stmt procedure");
+            Statement::ProcedureCall(_, kind, args) => {
+                self.out.push('(');
+                self.out.push_str(kind.name());
                 for a in args {
                     self.out.push(' ');
                     self.expr(a);
